@@ -41,9 +41,9 @@ func (s *JsonObjectBuilder) KeyCount() int {
 func (s *JsonObjectBuilder) WriteInferred(key, val string) {
 	if isNumeric(val) {
 		s.WriteLiteral(key, val)
-	} else if strings.EqualFold(val, "true") {
+	} else if len(val) == len("true") && strings.EqualFold(val, "true") { // same length: ASCII letters only (U+017F, U+212A fold to s, k)
 		s.WriteLiteral(key, "true")
-	} else if strings.EqualFold(val, "false") {
+	} else if len(val) == len("false") && strings.EqualFold(val, "false") {
 		s.WriteLiteral(key, "false")
 	} else {
 		s.WriteString(key, val)
